@@ -36,8 +36,8 @@ Triage notes (what was changed after the first runs, and why):
     KF10 (fixed Columns with a weighted FIXED+BOX column), KF11 (fixed GridFlow takes the box path for a Pile cell that
     has a given-height box item).  To see *all* failure kinds of a run, not the first 20 per check, replace
     `Tally.failures` by a property returning every entry of `by_sig` (the depth-3 check has > 200 kinds in this tier).
-    Family `Nested-extra` (all tiers) enumerates the shapes of KF10 / KF11 / KF12, which only the depth-3 sample reached
-    (KF12 only with a sample other than seed 0's).
+    Family `Nested-extra` (all tiers) enumerates the shapes of KF10 .. KF13, which only the depth-3 sample reached
+    (KF12 / KF13 only with samples other than seed 0's).
 
 Strengthening notes (after seeded changes C01-a1 / C01-a2 went undetected; bounds added, oracle unchanged):
   * GraphVScale: labels that wrap onto several rows at the narrow widths of the scope (multi-word, multi-line, wide,
@@ -927,7 +927,7 @@ def containers(children, flow_children, box_children, lvl):
         fam["GraphScale"] += [f"Pile([({h}, GraphVScale({lab}, 9)), Text('ab cd')])" for lab in gl for h in (2, 5)] + [f"LineBox(GraphVScale({lab}, 5))" for lab in gl]
     # Triage (thorough tier, tC01): three shapes that only the depth-3 *sample* reached (and only behind the 20 failures the
     # depth-3 check lists), made part of the enumerated bound in every tier so that what they show (known findings
-    # C01-KF10 / C01-KF11 / C01-KF12) is reproduced by every run instead of depending on the sample: a widget that reports
+    # C01-KF10 .. C01-KF13) is reproduced by every run instead of depending on the sample: a widget that reports
     # FIXED and BOX but not FLOW (an Overlay with 'pack' width) in a weighted column of a fixed-size Columns / LineBox; a
     # flow cell of a GridFlow that is a Pile with a given-height box item (such a Pile reports BOX, FLOW and FIXED); a
     # ListBox whose focus widget clips its child (Padding 'clip', a too-wide Overlay) so that the child's cursor is cut off.
@@ -940,6 +940,11 @@ def containers(children, flow_children, box_children, lvl):
         fam["Nested-extra"] += [f"GridFlow([{a}], 3, 1, 1, 'left')" for a in gp] + [f"GridFlow([{gp[0]}, {b}], 3, 1, 0, 'center')" for b in (*gp, "Text('ab cd')")]
         clipped = ("Padding(CheckBox('ab', True), 'right', 'clip')", "Padding(CheckBox('中', True), 'right', 'clip', min_width=2)", "Padding(Button('ok'), 'left', 'clip', left=2)", "Overlay(Edit('c', 'ab'), SolidFill('.'), 'center', 3, ('relative', 30), 'pack')")
         fam["Nested-extra"] += [f"list_box([{c}])" for c in clipped] + [f"list_box([Text('ab cd'), {c}], focus=1)" for c in clipped]
+        # ... a ListBox whose focus widget is a Columns too narrow for its focus column (the column is hidden; repaired by the
+        # fix "Columns.get_cursor_coords reports no cursor when the focus column is hidden", found by thorough seed 6 / quick seed 29)
+        fam["Nested-extra"] += ["list_box([Columns([(2, Edit('c', 'ab'))])])", "list_box([Text('ab cd'), Columns([Edit('c', 'ab'), Edit('c', 'ab')], min_width=3)], focus=1)", "list_box([Columns([(2, Edit('c', 'ab')), ('pack', Text('ab cd'))], min_width=3), Text('ab cd')])"]
+        # ... and (KF13) an Overlay with 'pack' width over a fixed widget that packs to 0 rows (a Pile of zero-weight items only)
+        fam["Nested-extra"] += [f"Overlay(Pile([('weight', 0, Text('ab cd'))]), SolidFill('.'), {o})" for o in ovp[:2]]
     F = list(flow_children)
     cells = [[]] + [[a] for a in F] + [[a, b] for a in F for b in F[: 2 if lvl == 2 else 1]] + [[F[0], a, F[0], a, F[0]] for a in F[:4]]
     galign = ("left", "center", "right", ("relative", 30))
